@@ -55,6 +55,7 @@ def scenario_source(kind, name):
         with open(os.path.join(d, "base.yaml"), "w") as f:
             f.write(base)
         entries = name.get("entries", 2)
+        pattern = name.get("pattern")  # e.g. [0, 0, 1]: schedule entry k joins overlay_<pattern[k]>.yaml - consecutive entries may name the SAME file list
         sched = {}
         for k in range(entries):
             referenced = {c.get("options", {}).get("agent_name") for a in cfg["agents"] if isinstance(a, dict)
@@ -65,6 +66,8 @@ def scenario_source(kind, name):
             with open(os.path.join(d, f"overlay_{k}.yaml"), "w") as f:
                 f.write(body)
             sched[k] = [f"overlay_{k}.yaml"]
+        if pattern:
+            sched = {k: [f"overlay_{j}.yaml"] for k, j in enumerate(pattern)}
         with open(os.path.join(d, "schedule.yaml"), "w") as f:
             yaml.safe_dump({"base_scenario": "base.yaml", "schedule": sched}, f)
         meta = dict(meta, name=f"genfolder-{name['seed']}", schedule=[tuple(v) for v in sched.values()])
